@@ -1,7 +1,8 @@
 CONSTANTS
   Fields = {1, 3, 4, 5}
   Sizes = {0, 36, 4096}
-  MaxOps = 6
+  MaxOps = 4
+  MaxSets = 2
   Defects = {"IgnoreSetting"}
 SPECIFICATION Spec
 INVARIANTS NoError RoundTrip TablesEqual SizeBound SensitiveKept
